@@ -58,6 +58,9 @@ SCALARS = {
     # lists whose items are unions with a member that needs a transform (the encoder's loop variable takes several types)
     "list-union-model-str": {"type": "array", "items": {"oneOf": [{"$ref": "#/components/schemas/Leaf"}, {"type": "string"}]}},
     "list-nullable-date": {"type": "array", "items": {"type": ["string", "null"], "format": "date"}},
+    # members that are all passed through undecoded today: a member that starts to "construct" would claim its neighbours' values
+    "union-bool-str": {"oneOf": [{"type": "boolean"}, {"type": "string"}]},
+    "union-num-str-bool": {"type": ["number", "string", "boolean"]},
     # items whose python type is narrower than their JSON type (a literal): lists are invariant for the type checker
     "list-const": {"type": "array", "items": {"const": "only"}},
     "list-intenum": {"type": "array", "items": {"$ref": "#/components/schemas/Level"}},
@@ -255,14 +258,25 @@ def tristate_contract(pkg, components, class_name, module_name, kind, required, 
                 raise Infeasible()
             # a JSON string that is not one of the listed values / not the constant
             vals = rs.get("enum") if "enum" in rs else ([rs["const"]] if "const" in rs else None)
-            if vals is None or not all(isinstance(v, str) or v is None for v in vals):
+            if vals is None or not all(isinstance(v, (str, int)) or v is None for v in vals):
                 from pyvc.symexec import Infeasible
                 raise Infeasible()
-            s = _z3.Const("outside_value", _z3.StringSort())
-            for v in vals:
-                if v is not None:
-                    I.assume(s != _z3.StringVal(v))
-            src.items["a-prop"] = _SStr(s)
+            # ANY JSON scalar that is not one of the listed values: a string, an integer or a number that equals none of them
+            # (2.0 is the JSON number 2), and -- for string lists -- a boolean.  (A boolean offered to an integer list is left out:
+            # python's True == 1 makes IntEnum(True) the member 1; see DESIGN 5.2.)
+            from pyvc.symexec import SV as _SV
+            Z = I.Z
+            t = _z3.Const("outside_value", Z.JV)
+            r, acc = Z.rec, Z.acc
+            strs = [v for v in vals if isinstance(v, str)]
+            ints = [v for v in vals if isinstance(v, int) and not isinstance(v, bool)]
+            alts = [_z3.And(r["str"](t), *[acc["s"](t) != _z3.StringVal(v) for v in strs]),
+                    _z3.And(r["int"](t), *[acc["i"](t) != v for v in ints]),
+                    _z3.And(r["flt"](t), acc["fk"](t) == Z.fk["fin"], *[acc["r"](t) != v for v in ints])]
+            if not ints:
+                alts.append(r["bool"](t))
+            I.assume(_z3.Or(*alts))
+            src.items["a-prop"] = _SV(t)
 
         def target(I, args, kwargs):
             return I.call(I.get_attr(cls, "from_dict"), [src], {})
@@ -300,7 +314,8 @@ def tristate_contract(pkg, components, class_name, module_name, kind, required, 
     cl = Clause("absent-null-present-outside", clause, any_outcome=True, native="result is not None", known=known, restrict=restrict,
                 statement="absent optional key -> attribute is UNSET; absent required key -> KeyError; null -> None iff the "
                           "schema is nullable; present -> a value that is neither UNSET nor (unless nullable) None; a "
-                          "string outside an enum/const -> an exception, never passed through", props=["C10", "C14"])
+                          "JSON scalar (string / integer / number; boolean for string lists) that is none of the listed values of an "
+                          "enum / const -> an exception, never passed through or mapped onto a member", props=["C10", "C14"])
     case = Case(label, make, [cl], raises=(Exception,), props=["C10", "C14"])
     return FnContract(f"{pkg.name}.models.{module_name}:{class_name}.from_dict", [case])
 
